@@ -753,4 +753,72 @@ theorem breach_inv {c : Cfg} {b : BState}
   · intro b b' ⟨hi, hg⟩ ⟨hst, hg'⟩
     exact ⟨hi.step hg hst hg', hg'⟩
 
+/-- the ghost record of successful takes only grows -/
+theorem bstep_won_mono {c : Cfg} {b b' : BState} {t : Nat} {sp : Bool} {l : Label}
+    (h : bstep c b t sp = some (b', l)) (v r : Nat) (hw : b.won v r ≠ []) : b'.won v r ≠ [] := by
+  unfold bstep at h
+  cases hb : b.bpc t <;> rw [hb] at h <;> simp only at h
+  case idle => simp at h
+  case emAlloc x =>
+    split at h
+    · split at h
+      · simp only [Option.some.injEq, Prod.mk.injEq] at h; rw [← h.1]; exact hw
+      · simp at h
+    · simp only [Option.map_eq_some_iff] at h
+      obtain ⟨p, _, he⟩ := h
+      simp only [Prod.mk.injEq] at he; rw [← he.1]; exact hw
+  case emCons => simp only [Option.some.injEq, Prod.mk.injEq] at h; rw [← h.1]; exact hw
+  case take v1 r1 =>
+    split at h
+    · simp only [Option.some.injEq, Prod.mk.injEq] at h; rw [← h.1]
+      simp only [upd2]; split
+      · simp
+      · exact hw
+    · simp only [Option.some.injEq, Prod.mk.injEq] at h; rw [← h.1]; exact hw
+  case fin =>
+    simp only [Option.map_eq_some_iff] at h
+    obtain ⟨p, _, he⟩ := h
+    simp only [Prod.mk.injEq] at he; rw [← he.1]; exact hw
+
+theorem BStep.won_mono {c : Cfg} {b b' : BState} (h : BStep c b b') (v r : Nat) (hw : b.won v r ≠ []) :
+    b'.won v r ≠ [] := by
+  cases h with
+  | act t sp _ l hs => exact bstep_won_mono hs v r hw
+  | emplace t x hb => exact hw
+  | take t v1 r1 x hb hi => exact hw
+  | finish t v1 r1 hb hp => exact hw
+
+/-- any continuation of an execution (all states `BGood`) -/
+inductive BStar (c : Cfg) : BState → BState → Prop
+  | refl (b : BState) : BStar c b b
+  | tail {b b1 b2 : BState} : BStar c b b1 → BStepR c b1 b2 → BStar c b b2
+
+theorem BStar.reach {c : Cfg} {b b' : BState} {init : BState → Prop} (hr : Reachable init (BStepR c) b)
+    (hs : BStar c b b') : Reachable init (BStepR c) b' := by
+  induction hs with
+  | refl => exact hr
+  | tail _ hst ih => exact Reachable.tail ih hst
+
+theorem BStar.won_mono {c : Cfg} {b b' : BState} (hs : BStar c b b') (v r : Nat) (hw : b.won v r ≠ []) :
+    b'.won v r ≠ [] := by
+  induction hs with
+  | refl => exact hw
+  | tail _ hst ih => exact hst.1.won_mono v r ih
+
+/-- a taken id is strictly below the slot's version -/
+theorem BInv.taken_lt {c : Cfg} {b : BState} (h : BInv c b) {v r : Nat} (hw : b.won v r ≠ []) : r < b.ver v := by
+  obtain ⟨x, hx⟩ := h.wonIss v r hw
+  rcases h.stale v r x hx with h1 | h1
+  · exact absurd (h.live v r x h1).2.2.2.1 hw
+  · exact h1.2
+
+/-- the CAS of a take whose id does not match fails: the thread returns "nothing" and neither the slot
+version nor the record of winners changes -/
+theorem bstep_take_fail {c : Cfg} {b b' : BState} {t v r : Nat} {sp : Bool} {l : Label}
+    (hb : b.bpc t = .take v r) (hne : b.ver v ≠ r) (h : bstep c b t sp = some (b', l)) :
+    b'.tres t = some none ∧ b'.won = b.won ∧ b'.ver = b.ver ∧ b'.bpc t = .idle := by
+  unfold bstep at h
+  rw [hb] at h; simp only [if_neg hne, Option.some.injEq, Prod.mk.injEq] at h
+  rw [← h.1]; simp
+
 end Babylon.IdAlloc
